@@ -751,12 +751,13 @@ class Node:
         if not attr_node.is_mapping():
             return
 
+        if not all(
+                isinstance(value_node, yaml.MappingNode)
+                for _, value_node in attr_node.yaml_node.value):
+            return      # not a mapping of mappings
+
         new_value = list()
         for key_node, value_node in attr_node.yaml_node.value:
-            if not isinstance(value_node, yaml.MappingNode):
-                raise SeasoningError(
-                    'Values must be mappings for key "{}"'.format(attribute))
-
             # filter out key atttribute
             value_node.value = [
                     (k, v) for k, v in value_node.value
